@@ -200,6 +200,25 @@ def _resolve(res, found):
             if deps != want or sorted([want[0], str(tid)]) != loaded:
                 found.append(("resolve:wrong-directory", "':%s' listed in //%s/COND resolved to %s (loaded %s), expected %s"
                               % (nm, p, deps, loaded, want), {"pkg": p, "name": nm}))
+    # the same relative strings listed by several COND files, all loaded by ONE index in one invocation (both orders)
+    for order in (list(PKGS), list(reversed(PKGS))):
+        deps = ["//%s:dep-on-%s" % (p, nm) for p in order for nm in NAMES]
+        files2 = dict(files)
+        files2["top/COND"] = 'group(name="top", deps=[%s])\n' % ", ".join('"%s"' % d for d in deps)
+        root2 = driver.fresh_project(files2, name="resolve2")
+        idx = TaskIndex(pathlib.Path(root2))
+        idx.load_transitive_closure(TI.from_str("//top:top"))
+        res["evals"] += 1
+        loaded = {str(k) for k in idx.get_all_loaded_tasks()}
+        for p in PKGS:
+            for nm in NAMES:
+                res["sigs"].add("resolve-shared:%s:%s:%s" % (order[0], p, nm))
+                got = [str(d) for d in idx.get_task(TI.from_str("//%s:dep-on-%s" % (p, nm))).deps]
+                want = ["//%s:%s" % (p, nm)]
+                if got != want or want[0] not in loaded:
+                    found.append(("resolve:wrong-directory-shared-index",
+                                  "':%s' listed in //%s/COND resolved to %s when several COND files list the same relative "
+                                  "dependency in one invocation (expected %s)" % (nm, p, got, want), {"pkg": p, "name": nm}))
     res["sample"] = {"cond_file": "a/b/COND", "dep": ":x", "expected": "//a/b:x"}
 
 
